@@ -151,6 +151,39 @@ def check_random(t, n, seed_tag):
             t.fail("C20|Sensors|requested-mag_noise-not-applied", {"requested": lvl, "attribute": float(S3.mag_noise), "std": sd3})
 
 
+def check_noise_levels(t, seed_tag):
+    """the noise that is applied has the reported standard deviation: per axis (a level may be a 3-vector, also with zero entries),
+    for every sensor, at sampling rates other than the default, in degrees and radians"""
+    n = 4000
+    for tag, kw in (("per-axis gyr [0,0,2]", {"gyr_noise": np.array([0.0, 0.0, 2.0])}),
+                    ("per-axis acc [0.3,0,0.1]", {"acc_noise": np.array([0.3, 0.0, 0.1])}),
+                    ("per-axis mag [0,50,120]", {"mag_noise": np.array([0.0, 50.0, 120.0])}),
+                    ("scalar levels at 400 Hz", {"gyr_noise": 0.8, "acc_noise": 0.2, "mag_noise": 40.0, "freq": 400.0}),
+                    ("scalar levels at 25 Hz, degrees", {"gyr_noise": 0.5, "acc_noise": 0.1, "mag_noise": 90.0, "freq": 25.0, "in_degrees": True})):
+        t.calls += 1
+        t.keys.add(("noise-levels", tag, seed_tag))
+        o = core.outcome(lambda: Sensors(num_samples=n, **kw))
+        if o[0] != "ok":
+            t.fail("C20|Sensors(%s)|raises-%s" % (tag, o[1]), {"options": kw, "err": o[2]})
+            continue
+        S = o[1]
+        R = np.asarray(S.rotations, dtype=float)
+        unit = 1.0 if kw.get("in_degrees") else math.pi / 180.0        # the gyroscope noise level is given in deg/s and converted with the samples
+        clean = {"acc": np.array([r.T @ np.asarray(S.reference_gravitational_vector, dtype=float) for r in R]),
+                 "mag": np.array([r.T @ np.asarray(S.reference_magnetic_vector, dtype=float) for r in R]),
+                 "gyr": np.asarray(S.ang_vel, dtype=float) * (180.0 / math.pi) * unit + np.asarray(S.biases_gyroscopes, dtype=float)}
+        got = {"acc": np.asarray(S.accelerometers, dtype=float), "mag": np.asarray(S.magnetometers, dtype=float), "gyr": np.asarray(S.gyroscopes, dtype=float)}
+        for sensor, att in (("gyr", "gyr_noise"), ("acc", "acc_noise"), ("mag", "mag_noise")):
+            rep = np.broadcast_to(np.asarray(getattr(S, att), dtype=float), (3,)) * (unit if sensor == "gyr" else 1.0)
+            asked = kw.get(att)
+            if asked is not None and not np.array_equal(np.broadcast_to(np.asarray(asked, dtype=float), (3,)), np.broadcast_to(np.asarray(getattr(S, att), dtype=float), (3,))):
+                t.fail("C20|Sensors(%s)|%s-attribute-differs-from-request" % (tag, att), {"options": kw, "attribute": getattr(S, att)})
+            sd = np.std(got[sensor] - clean[sensor], axis=0)
+            # 4000 samples: the sample standard deviation is within 5 sigma/sqrt(2n) ~ 6 % of the level; a zero level means exact samples
+            if not np.all(np.abs(sd - rep) <= 0.08 * rep + 1e-9 * (1.0 + np.max(np.abs(clean[sensor])))):
+                t.fail("C20|Sensors(%s)|%s-not-the-applied-level" % (tag, att), {"options": kw, "reported": rep, "applied_std": sd})
+
+
 def check_random_options(t, n, seed_tag):
     """random trajectory route with its options (degrees, pinned yaw, span, rate): all outputs describe ONE trajectory, and the
     bias-corrected gyroscopes integrate from the first attitude back to it"""
@@ -225,6 +258,7 @@ def realistic(seed):
         check_random(t, n, seed)
     for n in (60, 300):
         check_random_options(t, n, seed)
+    check_noise_levels(t, seed)
     return t
 
 
